@@ -580,7 +580,47 @@ def r05_6(chk):
     chk.floor("R05.6", 2, "solution used as solved; infeasible point refused")
 
 
+def r05_11(chk):
+    chk.rule("R05.11", "the uncalibrated rate matrix a likelihood function reports is the one behind the transition matrix: every LikelihoodFunction method with a `calibrated` option that, when it is off, scales Q by the edge's `length` also scales by the bin's `rate` multiplier (rate-heterogeneity models) -- the documented contract is expm(Q) == get_psub_for_edge(...), and the sibling getters must agree")
+    m = chk.repo.module("evolve/likelihood_function.py")
+    ci = m.cls("LikelihoodFunction")
+    n = 0
+    for name, fn in ci.methods.items():
+        if not isinstance(fn, ast.FunctionDef) or "calibrated" not in params_of(fn):
+            continue
+        guards = [i for i in ast.walk(fn) if isinstance(i, ast.If) and norm(i.test) in ("not calibrated", "calibrated is False", "calibrated == False")]
+        scaled = [i for i in guards if any(isinstance(c, ast.Call) and isinstance(c.func, ast.Attribute) and c.func.attr == "get_param_value" and c.args and norm(c.args[0]) == "'length'" for c in ast.walk(i))]
+        if not scaled:
+            continue
+        n += 1
+        uses_rate = any(
+            (isinstance(c, ast.Call) and isinstance(c.func, ast.Attribute) and c.func.attr == "get_param_value" and c.args and norm(c.args[0]) == "'rate'")
+            or (isinstance(c, ast.Name) and c.id in _rate_names(fn))
+            for i in scaled for c in ast.walk(i)
+        )
+        chk.decide(uses_rate, "R05.11", key(m, f"LikelihoodFunction.{name}", "uncalibrated Q scaled by length and bin rate"), m.loc(scaled[0]), "length and the bin's rate both enter the scale", "with calibrated=False Q is multiplied by the edge length only: for a rate-heterogeneity model expm(Q) is not the bin's transition matrix (get_psub_for_edge) -- it differs by the bin's rate multiplier")
+    chk.floor("R05.11", 2, "get_all_rate_matrices and get_rate_matrix_for_edge")
+
+
+def _rate_names(fn):
+    """locals bound from the model's 'rate' definition (self.defn_for.get('rate' ...) / defn_for['rate']) or derived from them"""
+    names = set()
+    changed = True
+    while changed:
+        changed = False
+        for st in walk_no_nested(fn):
+            if isinstance(st, ast.Assign) and len(st.targets) == 1 and isinstance(st.targets[0], ast.Name) and st.targets[0].id not in names:
+                v = norm(st.value)
+                if "defn_for.get('rate'" in v or "defn_for['rate']" in v or any(isinstance(x, ast.Name) and x.id in names for x in ast.walk(st.value)):
+                    # only values, not index bookkeeping: require the word rate in the target or a .values access
+                    if "rate" in st.targets[0].id:
+                        names.add(st.targets[0].id)
+                        changed = True
+    return names
+
+
 def run(chk):
+    r05_11(chk)
     r05_10(chk)
     r05_9(chk)
     r05_8(chk)
